@@ -156,7 +156,11 @@ def run(ctx):
                 ctx.nontriv(c)
         if a != b:
             detail = {"case": list(c), "implementation": a, "model": b, "harness_cmd": "echo '%s' | harness/target/release/rlharness dates" % line(c)}
-            if op in ("civilr", "addmr", "monthr"):
+            ndrill = getattr(ctx, "_ndrill", 0)
+            if len(ctx.violations) >= 25:
+                continue
+            if op in ("civilr", "addmr", "monthr") and ndrill < 4:
+                ctx._ndrill = ndrill + 1
                 # range case (hash mismatch): drill down to the single inputs that differ
                 if op == "civilr":
                     singles = [("civil", n) for n in range(c[1], c[1] + c[2])]
